@@ -106,8 +106,27 @@ theorem C07_names (m : CovModel) (indices : List Pair) (s c : Nat)
 def CovModel.NamesOk (m : CovModel) : Prop :=
   m.stored = selNames m.nDim m.nCov m.sel (popFullNames m.nDim m.baseNames m.dimNames)
 
-theorem C07_namesOk_step (m : CovModel) (o : CovOp) : (m.step o).NamesOk := by
-  cases o <;> rfl
+/-- is the call a `set_parameter_names(names)` with user-chosen names? -/
+def CovOp.isSetNames : CovOp → Bool
+  | .setNames _ _ => true
+  | _ => false
+
+/-- `set_population_parameters`, `set_dim_names` and `set_parameter_names(None)` (re)establish the
+    naming whatever the names were before — in particular a reset after user-chosen names gives
+    the names a fresh model has -/
+theorem C07_names_reset (m : CovModel) (o : CovOp)
+    (ho : (∃ ix, o = .setPop ix) ∨ (∃ ns, o = .setDimNames ns) ∨ (∃ d, o = .resetNames d)) :
+    (m.step o).NamesOk := by
+  rcases ho with ⟨_, rfl⟩ | ⟨_, rfl⟩ | ⟨_, rfl⟩ <;> rfl
+
+theorem C07_namesOk_step (m : CovModel) (o : CovOp) (ho : o.isSetNames = false) (hm : m.NamesOk) :
+    (m.step o).NamesOk := by
+  cases o with
+  | setPop ix => rfl
+  | setDimNames ns => rfl
+  | setNIds n => exact hm
+  | setNames a b => simp [CovOp.isSetNames] at ho
+  | resetNames d => rfl
 
 /-- the constructor selects every pair; its stored order is the flat (parameter-major) order of
     `ndarray.flatten`, although the index list is built dimension-major -/
@@ -126,17 +145,20 @@ theorem C07_constructor_names (perDim nDim nCov : Nat) (baseNames dimNames covNa
   rw [normSel_ctor]
   exact ctor_names_eq perDim nDim nCov _ (by simp [popFullNames, hb])
 
-/-- after the constructor and ANY history of `set_population_parameters` / `set_dim_names`
-    calls the β names are those of the stored selection (so `C07_names` applies at every point) -/
+/-- after the constructor and ANY history of `set_population_parameters` / `set_dim_names` /
+    `set_n_ids` / `set_parameter_names(None)` calls the β names are those of the stored selection
+    (so `C07_names` applies at every point) -/
 theorem C07_names_invariant (perDim nDim nCov : Nat) (baseNames dimNames covNames : List String)
-    (hb : baseNames.length = perDim * nDim) (ops : List CovOp) :
+    (hb : baseNames.length = perDim * nDim) (ops : List CovOp)
+    (hops : ∀ o ∈ ops, o.isSetNames = false) :
     (ops.foldl CovModel.step
       (CovModel.construct perDim nDim nCov baseNames dimNames covNames)).NamesOk := by
   induction ops using List.reverseRecOn with
   | nil => exact C07_constructor_names perDim nDim nCov baseNames dimNames covNames hb
-  | append_singleton ops o _ =>
+  | append_singleton ops o ih =>
     rw [List.foldl_append]
-    exact C07_namesOk_step _ o
+    exact C07_namesOk_step _ o (hops o (by simp))
+      (ih (fun o' ho' => hops o' (by simp [ho'])))
 
 /-- `CovariatePopulationModel.set_population_parameters`: every non-empty list of in-range pairs
     (any order, duplicates) is accepted and stores `normSel`; a pair out of range is an
@@ -188,28 +210,25 @@ theorem C07_setpop_out_of_range (perDim nDim : Nat) (indices : List (Int × Int)
     omega
   simp [h1, h2]
 
-/-! ### `set_n_ids` around a heterogeneous model (known finding `C07.set_n_ids/HeterogeneousModel`) -/
-
+/-! ### `set_n_ids` around a heterogeneous model (one parameter row per individual) -/
 
 theorem C07_hetBaseNames_length (n nDim : Nat) : (hetBaseNames n nDim).length = n * nDim := by
   unfold hetBaseNames
   rw [flatMap_block_length _ nDim _ (by intro a _; simp), List.length_range]
 
-/-- a freshly constructed wrapper around a heterogeneous model with `n` individuals (= what the
-    proposed `set_n_ids` repair yields when the user made no selection): the names cover exactly
-    `n_parameters()` and a vector of that length passes the split -/
-theorem C07_set_n_ids_intended (n nDim nCov : Nat) (dims covs : List String) :
+/-- a freshly constructed wrapper around a heterogeneous model with `n` individuals: the names
+    cover exactly `n_parameters()`, they name the stored selection, and a vector of that length
+    passes the split -/
+theorem C07_set_n_ids_fresh (n nDim nCov : Nat) (dims covs : List String) :
     let h := CovHet.construct n nDim nCov dims covs
-    h.evaluable = true ∧ (h.m.parameterNames false).length = h.nParameters ∧
-    ∀ h0 : CovHet, h0.m.nDim = nDim → h0.m.nCov = nCov → h0.m.dimNames = dims → h0.m.covNames = covs →
-      h0.setNIdsIntended n = h := by
+    h.evaluable = true ∧ (h.m.parameterNames false).length = h.nParameters ∧ h.m.NamesOk := by
   intro h
   have hsel : h.m.sel.length = n * nDim := by
     show (normSel (ctorIndices n nDim)).length = _
     rw [normSel_ctor, flatPairs_length]
   have hnp : h.nParameters = n * nDim + nCov * (n * nDim) := by
     unfold CovHet.nParameters; rw [hsel]; rfl
-  refine ⟨?_, ?_, ?_⟩
+  refine ⟨?_, ?_, C07_constructor_names n nDim nCov _ dims covs (C07_hetBaseNames_length n nDim)⟩
   · unfold CovHet.evaluable
     rw [hnp, hsel]
     have : h.nPopSplit = n * nDim := rfl
@@ -228,28 +247,124 @@ theorem C07_set_n_ids_intended (n nDim nCov : Nat) (dims covs : List String) :
       rw [flatMap_block_length _ nCov _ (by intro a _; simp)]
       simp [popFullNames, C07_hetBaseNames_length]
     rw [h1, h2, Nat.mul_comm nCov]
-  · intro h0 e1 e2 e3 e4
-    unfold CovHet.setNIdsIntended
-    rw [e1, e2, e3, e4]
 
-/-- the code as it is: wrap a 1-individual heterogeneous model (the default), then
-    `set_n_ids(2)`: `n_parameters()` says 3, there are 3 names (`ID 1`, `ID 2` and ONE β — the new
-    row has no β), and no vector of that length can be evaluated (the β block is read from
-    position `_n_pop = 1`: 2 entries for 1 β → reshape `ValueError`); the repair gives 4 / 4 /
-    evaluable. -/
-theorem C07_set_n_ids_counterexample :
-    let h := (CovHet.construct 1 1 1 ["Dim. 1"] ["Cov. 1"]).setNIds 2
-    h.nParameters = 3 ∧ (h.m.parameterNames false).length = 3 ∧ h.evaluable = false ∧
-    ((CovHet.construct 1 1 1 ["Dim. 1"] ["Cov. 1"]).setNIdsIntended 2).nParameters = 4 := by
+theorem normSel_flatPairs (perDim nDim : Nat) : normSel (flatPairs perDim nDim) = flatPairs perDim nDim :=
+  (normSel_unique _ _ (flatPairs_sorted perDim nDim) (fun _ => Iff.rfl)).symm
+
+/-- ONE `set_n_ids(n)` on a wrapper whose selection is still the constructor's "all parameters":
+    the result is EXACTLY the wrapper a fresh construction with `n` individuals gives (selection,
+    names, split point, and the all-selected mark) -/
+theorem C07_set_n_ids_all_selected (n0 n nDim nCov : Nat) (hD : 0 < nDim) (dims covs : List String) :
+    (CovHet.construct n0 nDim nCov dims covs).setNIds n = .ok (CovHet.construct n nDim nCov dims covs) := by
+  unfold CovHet.setNIds
+  by_cases e : n = n0
+  · subst e; simp [CovHet.construct, CovModel.construct]
+  · have hne : ¬ (n * (CovHet.construct n0 nDim nCov dims covs).m.nDim
+        = (CovHet.construct n0 nDim nCov dims covs).m.perDim * (CovHet.construct n0 nDim nCov dims covs).m.nDim) := by
+      show ¬ (n * nDim = n0 * nDim)
+      intro h; exact e (Nat.eq_of_mul_eq_mul_right hD h)
+    rw [if_neg hne]
+    show Except.ok _ = Except.ok _
+    congr 1
+    unfold CovHet.construct CovModel.construct CovModel.setPop
+    simp only [normSel_flatPairs, normSel_ctor, Bool.false_eq_true, if_false]
+    congr 2
+    exact (ctor_names_eq n nDim nCov _ (by
+      simp only [popFullNames, List.length_map, List.length_range]
+      exact C07_hetBaseNames_length n nDim)).symm
+
+/-- ANY sequence of `set_n_ids` calls on a wrapper without user selection never raises and ends
+    in the state of a fresh wrapper with the LAST number of individuals: growing, shrinking,
+    repeating — the all-parameters default survives every call -/
+theorem C07_set_n_ids_history (n0 nDim nCov : Nat) (hD : 0 < nDim) (dims covs : List String)
+    (ns : List Nat) :
+    (ns.map CovOp.setNIds).foldl CovHet.stepKeep (CovHet.construct n0 nDim nCov dims covs)
+      = CovHet.construct (ns.getLastD n0) nDim nCov dims covs := by
+  induction ns generalizing n0 with
+  | nil => rfl
+  | cons n rest ih =>
+    rw [List.map_cons, List.foldl_cons]
+    have : (CovHet.construct n0 nDim nCov dims covs).stepKeep (.setNIds n)
+        = CovHet.construct n nDim nCov dims covs := by
+      have e := C07_set_n_ids_all_selected n0 n nDim nCov hD dims covs
+      simp only [CovHet.stepKeep, CovHet.step, e]
+    rw [this, ih n]
+    cases rest <;> rfl
+
+/-- a selection made by the user survives `set_n_ids(n)` when all of it still exists: same
+    stored selection, still marked as the user's, names of the stored selection, evaluable; and
+    if some selected row no longer exists the call raises and nothing changes -/
+theorem C07_set_n_ids_keeps_selection (h : CovHet) (n : Nat) (ix : List Pair)
+    (hsel : h.m.sel = normSel ix) (hall : h.allSelected = false)
+    (hsplit : n * h.m.nDim ≠ h.m.perDim * h.m.nDim) :
+    ((∀ x ∈ ix, x.1 < n) →
+      ∃ h', h.setNIds n = .ok h' ∧ h'.m.sel = normSel ix ∧ h'.allSelected = false ∧ h'.m.NamesOk ∧
+        h'.m.perDim = n ∧ h'.evaluable = true) ∧
+    ((∃ x ∈ ix, n ≤ x.1) → h.setNIds n = .error .valueError ∧
+      h.stepKeep (.setNIds n) = h.afterRaise ∧
+      (h.m.baseNames = hetBaseNames h.m.perDim h.m.nDim → h.stepKeep (.setNIds n) = h)) := by
+  constructor
+  · intro hr
+    have hin : h.m.sel.all (fun x => decide (x.1 < n)) = true := by
+      rw [List.all_eq_true]
+      intro x hx
+      rw [hsel, mem_normSel] at hx
+      simpa using hr x hx
+    refine ⟨⟨({ h.m with perDim := n, baseNames := hetBaseNames n h.m.nDim } : CovModel).setPop false h.m.sel,
+        n * h.m.nDim, h.allSelected⟩,
+      by unfold CovHet.setNIds; simp only [hsplit, if_false, hall, Bool.false_eq_true, hin, if_true],
+      ?_, hall, rfl, rfl, ?_⟩
+    · show normSel h.m.sel = normSel ix
+      rw [hsel]
+      exact C07_selection_order_irrelevant _ _ (fun x => mem_normSel ix x)
+    · unfold CovHet.evaluable CovHet.nParameters
+      simp only [CovModel.setPop]
+      have : n * h.m.nDim + h.m.nCov * (normSel h.m.sel).length - n * h.m.nDim
+          = (normSel h.m.sel).length * h.m.nCov := by
+        rw [Nat.add_sub_cancel_left, Nat.mul_comm]
+      simp [this]
+  · rintro ⟨x, hx, hge⟩
+    have hin : h.m.sel.all (fun x => decide (x.1 < n)) = false := by
+      rw [Bool.eq_false_iff]
+      intro hall'
+      rw [List.all_eq_true] at hall'
+      have := hall' x (by rw [hsel, mem_normSel]; exact hx)
+      simp at this
+      omega
+    have herr : h.setNIds n = .error .valueError := by
+      unfold CovHet.setNIds
+      simp only [hsplit, if_false, hall, Bool.false_eq_true, hin]
+    have hk : h.stepKeep (.setNIds n) = h.afterRaise := by
+      simp only [CovHet.stepKeep, CovHet.step, herr]
+    refine ⟨herr, hk, fun hb => ?_⟩
+    rw [hk]
+    unfold CovHet.afterRaise
+    rw [← hb]
+
+/-- …but "left unchanged" fails for user-chosen population names: two individuals, selection
+    `[(1,0)]`, names set by the user, then `set_n_ids(1)` (row 1 would disappear → `ValueError`):
+    the population names are back to `ID 1`, `ID 2`; selection, β names and counts are kept. -/
+theorem C07_set_n_ids_raise_counterexample :
+    let h := (((CovHet.construct 2 1 1 ["Dim. 1"] ["Cov. 1"]).setPop [(1, 0)]).stepKeep
+      (.setNames ["mine1", "mine2"] ["b"]))
+    h.setNIds 1 = .error .valueError ∧
+    (h.m.parameterNames true) = ["mine1", "mine2", "b Cov. 1"] ∧
+    ((h.stepKeep (.setNIds 1)).m.parameterNames true) = ["ID 1", "ID 2", "b Cov. 1"] ∧
+    (h.stepKeep (.setNIds 1)).m.sel = h.m.sel ∧ (h.stepKeep (.setNIds 1)).nParameters = h.nParameters := by
+  intro h
   decide
 
-/-- nothing goes wrong as long as the number of individuals is the one at construction -/
-theorem C07_set_n_ids_partial (n nDim nCov : Nat) (dims covs : List String) :
-    let h := (CovHet.construct n nDim nCov dims covs).setNIds n
-    h.evaluable = true ∧ h.nParameters = (CovHet.construct n nDim nCov dims covs).nParameters := by
-  intro h
-  have e : h.evaluable = (CovHet.construct n nDim nCov dims covs).evaluable := rfl
-  exact ⟨by rw [e]; exact (C07_set_n_ids_intended n nDim nCov dims covs).1, rfl⟩
+/-- before `ec83423`: wrap a 1-individual heterogeneous model (the default), then `set_n_ids(2)`:
+    `n_parameters()` said 3, there were 3 names (`ID 1`, `ID 2` and ONE β — the new row had no β),
+    and no vector of that length could be evaluated (the β block was read from position
+    `_n_pop = 1`: 2 entries for 1 β → reshape `ValueError`); the repaired code gives 4 / 4 /
+    evaluable. -/
+theorem C07_set_n_ids_counterexample :
+    let h := (CovHet.construct 1 1 1 ["Dim. 1"] ["Cov. 1"]).setNIdsLegacy 2
+    h.nParameters = 3 ∧ (h.m.parameterNames false).length = 3 ∧ h.evaluable = false ∧
+    ((CovHet.construct 1 1 1 ["Dim. 1"] ["Cov. 1"]).stepKeep (.setNIds 2)).nParameters = 4 ∧
+    ((CovHet.construct 1 1 1 ["Dim. 1"] ["Cov. 1"]).stepKeep (.setNIds 2)).evaluable = true := by
+  decide
 
 
 /-! ### the pre-fix selection -/
@@ -482,6 +597,50 @@ theorem C07_equiv_indiv (k : Kind) (hk : k = .gauss true ∨ k = .logn true ∨ 
     indiv false k nIds nDim th eta i d
       = indiv false k 1 nDim (fun _ p d => th i p d) (fun _ d => eta i d) 0 d := by
   rcases hk with rfl | rfl | rfl | rfl <;> rfl
+
+/-- `return_eta=True` (the call `HierarchicalLogLikelihood` and `ComposedPopulationModel` make
+    first): for EVERY wrapped kind the covariate model returns what the wrapped model returns for
+    individual `i` alone with `ϑ_i` — `η_i` for the kinds with individual-level entries, and for
+    pooled / heterogeneous models, which ignore the flag, the covariate-shifted population
+    parameters `ϑ_i[0, ·]` resp. `ϑ_i[i, ·]`, i.e. exactly the `return_eta=False` value. -/
+theorem C07_equiv_indiv_return_eta (k : Kind) (c : CovCfg) (nIds : Nat) (params : List ℝ)
+    (cov : Nat → Nat → ℝ) (eta : Nat → Nat → ℝ) :
+    let th := covTh c (vecOf params) cov
+    covIndivEta k c nIds params cov eta =
+      (if params.length ≠ c.nParams then .error .valueError
+       else .ok ((List.range nIds).map (fun i => (List.range c.nDim).map (fun d =>
+          indivEta k (fun _ p d => th i (p + ownRow k i) d) (fun _ d => eta i d) 0 d)))) ∧
+    (k.hierarchical = true → ∀ i d, indivEta k th eta i d = .val (eta i d)) ∧
+    (k.hierarchical = false → ∀ i d, indivEta k th eta i d = indiv false k nIds c.nDim th eta i d) := by
+  intro th
+  refine ⟨?_, ?_, ?_⟩
+  · unfold covIndivEta
+    split
+    · rfl
+    · show Except.ok _ = Except.ok _
+      congr 1
+      apply List.map_congr_left; intro i _
+      apply List.map_congr_left; intro d _
+      cases k with
+      | gauss b => rfl
+      | logn b => rfl
+      | trunc => rfl
+      | pooled => rfl
+      | hetero => simp only [indivEta, ownRow, Nat.zero_add]; rfl
+  · intro hk i d
+    cases k with
+    | gauss b => rfl
+    | logn b => rfl
+    | trunc => rfl
+    | pooled => simp [Kind.hierarchical] at hk
+    | hetero => simp [Kind.hierarchical] at hk
+  · intro hk i d
+    cases k with
+    | gauss b => simp [Kind.hierarchical] at hk
+    | logn b => simp [Kind.hierarchical] at hk
+    | trunc => simp [Kind.hierarchical] at hk
+    | pooled => rfl
+    | hetero => rfl
 
 /-- non-centred models (`ψ_i = ϑ_i[0] + ϑ_i[1] η_i`, resp. its exponential): equal to the wrapped
     model on `i` alone PROVIDED no individual's shifted scale is negative — chi blanks the whole
